@@ -114,10 +114,15 @@ def gen_design(rng, hist):
                 elab = DomainRenamer({src: dst})(elab)
                 ws.append(("rename", src, dst))
             else:
-                dom = rng.choice(D.domnames)
-                ctl = rng.choice(D.ctls)
-                elab = (ResetInserter if kind == "reset" else EnableInserter)({dom: ctl})(elab)
-                ws.append((kind, dom, ctl))
+                # one inserter may name several domains at once ({d1: c1, d2: c2}): it acts on each of them as a
+                # separate inserter would, and on no other
+                doms = rng.sample(D.domnames, 2 if (len(D.domnames) > 1 and rng.random() < 0.35) else 1)
+                ctls = {dom: rng.choice(D.ctls) for dom in doms}
+                elab = (ResetInserter if kind == "reset" else EnableInserter)(ctls)(elab)
+                for dom in doms:
+                    ws.append((kind, dom, ctls[dom]))
+                if len(doms) > 1:
+                    hist["wrapper:" + kind + ":multi_domain"] = hist.get("wrapper:" + kind + ":multi_domain", 0) + 1
         return elab, ws
 
     D.split_pending = None
